@@ -630,7 +630,7 @@ def replay(ctx, obj):
     evaluate(ctx, [c], 1)
 
 
-READY = False
+READY = True
 LEVEL_TEXT = ("Theorems (Coq, every grid size, band, NaN mask, power n:nat, batch size): the n-th moment of the model equals "
               "the trapezoid segment sum over the grid points with fmin <= f < fmax of fill0(e)*f^n (NaN counted as zero after "
               "the product); bands with at most one point give 0; moments are linear (scale, sum under the same NaN mask); "
